@@ -3,6 +3,8 @@ import BezierVerif.Model.Triangle
 import BezierVerif.Lemmas.Subdivide
 import BezierVerif.Lemmas.TriRounding
 import BezierVerif.Lemmas.TriSpecializePy
+import Mathlib.Algebra.Order.Field.Rat
+import Mathlib.Algebra.Order.Ring.Rat
 
 /-!
 # Lemmas/RoundingMore — a logical relation for running the model in rounded arithmetic
@@ -1558,6 +1560,56 @@ theorem py_evalBarycentricRow_near (S : StdModel fl u) (thr d : ℕ) (hbin : Tri
   rw [← ha]
   exact this
 
+
+/-! ### the shipped Fortran loop (`integer(c_int)` binomial) while the 32-bit binomial is exact -/
+
+theorem intToK_natCast' {K : Type} [Neg K] [NatCast K] (n : ℕ) :
+    intToK (K := K) ((n : ℕ) : ℤ) = ((n : ℕ) : K) := by
+  unfold intToK
+  have : ¬ ((n : ℤ) < 0) := by omega
+  rw [if_neg this]; simp
+
+/-- as long as the 32-bit running binomial is the true binomial coefficient (`d ≤ 29`,
+    `binomAfter_exact_le_29`) the Fortran loop with the `integer(c_int)` binomial computes, in the
+    rounded arithmetic, exactly what the loop with the real binomial computes -/
+theorem F90_triLoop_eq_real_fl (thr d : ℕ) (hbin : TriBinomExact fl d)
+    (hex : ∀ t, t ≤ d → F90.binomAfter d t = ((d.choose (d - t) : ℕ) : ℤ))
+    (row : List (Fl F fl)) (w : Bary (Fl F fl)) : ∀ t, t ≤ d →
+    (F90.triLoop thr d row w t).index = (F90.triLoopReal thr d row w t).index ∧
+    (F90.triLoop thr d row w t).result = (F90.triLoopReal thr d row w t).result := by
+  intro t
+  induction t with
+  | zero => intro _; exact ⟨rfl, rfl⟩
+  | succ t ih =>
+    intro ht
+    obtain ⟨hi, hr⟩ := ih (by omega)
+    have hb1 : (F90.triLoop thr d row w (t+1)).binom = ((d.choose (d - (t+1)) : ℕ) : ℤ) := by
+      rw [F90_triLoop_binom' thr d row w (t+1)]; exact hex (t+1) ht
+    have hb2 : (F90.triLoopReal thr d row w (t+1)).binom = ((d.choose (d - (t+1)) : ℕ) : Fl F fl) := by
+      rw [(F90_triLoopReal_index_binom thr d row w (t+1)).2]
+      exact Fl.eq_mk (triLoop_fl_binom fl thr d hbin row w (t+1) ht)
+    have e1 : (F90.triLoop thr d row w (t+1)).result
+        = w.l3 * (F90.triLoop thr d row w t).result
+          + intToK (F90.triLoop thr d row w (t+1)).binom
+            * evalBary thr (triSlice row ((F90.triLoop thr d row w t).index - 1 + (d - 1 - t) - d)
+                ((F90.triLoop thr d row w t).index - 1)) w.l1 w.l2 := rfl
+    have e2 : (F90.triLoopReal thr d row w (t+1)).result
+        = w.l3 * (F90.triLoopReal thr d row w t).result
+          + (F90.triLoopReal thr d row w (t+1)).binom
+            * evalBary thr (triSlice row ((F90.triLoopReal thr d row w t).index - 1 + (d - 1 - t) - d)
+                ((F90.triLoopReal thr d row w t).index - 1)) w.l1 w.l2 := rfl
+    refine ⟨?_, ?_⟩
+    · show (F90.triLoop thr d row w t).index - 1 + (d - 1 - t) - d
+        = (F90.triLoopReal thr d row w t).index - 1 + (d - 1 - t) - d
+      rw [hi]
+    · rw [e1, e2, hb1, hb2, intToK_natCast', hi, hr]
+
+theorem F90_evalBarycentricRow_eq_real_fl (thr d : ℕ) (hbin : TriBinomExact fl d)
+    (hex : ∀ t, t ≤ d → F90.binomAfter d t = ((d.choose (d - t) : ℕ) : ℤ))
+    (row : List (Fl F fl)) (w : Bary (Fl F fl)) :
+    F90.evalBarycentricRow thr d row w = F90.evalBarycentricRowReal thr d row w :=
+  (F90_triLoop_eq_real_fl thr d hbin hex row w d le_rfl).2
+
 end TriEvalF90
 
 
@@ -1693,5 +1745,43 @@ theorem reducePinv_near (S : StdModel fl u) (nodes : List (List F)) (r : List (L
     simpa using this
 
 end ElevReduce
+
+
+/-! ## a concrete inexact arithmetic on `ℚ` satisfying every hypothesis (for non-vacuity) -/
+
+/-- dyadic numbers with denominator up to `2^64` are kept, every other number is multiplied by
+    `1 + 2⁻¹⁰` -/
+def flDy (x : ℚ) : ℚ := if x.den ∣ 2^64 then x else x * (1 + 1/1024)
+
+/-- it satisfies the standard model with `u = 2⁻¹⁰` -/
+theorem flDy_std : StdModel flDy (1/1024) := by
+  refine ⟨by norm_num, ?_⟩
+  intro x
+  unfold flDy
+  split
+  · simp
+  · have : x * (1 + 1/1024) - x = 1/1024 * x := by ring
+    rw [this, abs_mul]; norm_num
+
+/-- the dyadic weights are exact -/
+theorem flDy_dyadic (n : ℕ) (hn : n ≤ 64) : DyadicExact flDy n := by
+  intro k m hk _
+  unfold flDy
+  rw [if_pos]
+  have e : ((m : ℚ) / 2^k) = Rat.divInt (m : ℤ) ((2^k : ℕ) : ℤ) := by
+    rw [Rat.divInt_eq_div]; push_cast; rfl
+  rw [e]
+  have h1 := Rat.den_dvd (m : ℤ) ((2^k : ℕ) : ℤ)
+  have h2 : (Rat.divInt (m : ℤ) ((2^k : ℕ) : ℤ)).den ∣ 2^k := Int.natCast_dvd_natCast.mp h1
+  exact dvd_trans h2 (Nat.pow_dvd_pow 2 (by omega))
+
+/-- it is inexact: `fl (1/3) ≠ 1/3` -/
+theorem flDy_inexact : flDy (1/3) ≠ 1/3 := by
+  have hden : (1 / 3 : ℚ).den = 3 := by
+    have : (1 / 3 : ℚ) = Rat.divInt 1 3 := by rw [Rat.divInt_eq_div]; norm_num
+    rw [this]; rfl
+  unfold flDy
+  rw [if_neg (by rw [hden]; decide)]
+  norm_num
 
 end BezierVerif
